@@ -1,9 +1,229 @@
 import KG.Base.Json
-/-! Driver entry points for property C12 (filled in by the C12 model). -/
-namespace KG.Driver.C12
-open Lean
+import KG.Spec.AuthCache
+/-!
+Driver entry points for C12.
 
-/-- `handle method args`: `none` when the method is unknown. -/
-def handle (_m : String) (_a : Json) : Option (Except String Json) := none
+`C12.run {cfg, tokOracle, sarOracle, attrs, ops, impl}`:
+* runs the scheduled requests `ops` (`Macro`s) on the model from `init` and returns every answer given
+  (`outs`), the number of small steps executed, the live cache keys;
+* evaluates the judge of `KG.Spec.AuthCache` on the model's own answers (`modelJudge`) and on the observations
+  `impl` made on the real code (`implJudge`: one verdict per observation).
+
+Oracles are rule lists: the answer of instance `i` for a token / spec at time `t` is the answer of the first
+rule `[i, key, from, ans]` with `from ≤ t` (default: not authenticated / no opinion).
+-/
+namespace KG.Driver.C12
+open Lean KG KG.Model.AuthCache KG.Spec.AuthCache
+
+def getHexOpt (j : Json) (k : String) : Except String (Option Str) :=
+  match J.optObj j k with
+  | none => pure none
+  | some v => do pure (some (← J.asHex v))
+
+def decodeUser (j : Json) : Except String UserInfo := do
+  let extra ← (← J.getArr j "extra").toList.mapM fun kv => do
+    let a ← kv.getArr?
+    match a.toList with
+    | [k, vs] => do
+      let vals ← (← vs.getArr?).toList.mapM J.asHex
+      pure ((← J.asHex k), vals)
+    | _ => throw "bad extra"
+  pure { name := ← J.getHex j "name", uid := ← J.getHex j "uid", groups := ← J.getHexList j "groups", extra := extra }
+
+def decodeAttrs (j : Json) : Except String Attrs := do
+  let user ← match J.optObj j "user" with
+    | none => pure none
+    | some u => do pure (some (← decodeUser u))
+  pure { user := user, verb := ← J.getHex j "verb", ns := ← J.getHex j "ns", apiGroup := ← J.getHex j "apiGroup",
+         apiVersion := ← J.getHex j "apiVersion", resource := ← J.getHex j "resource",
+         subresource := ← J.getHex j "subresource", name := ← J.getHex j "name", path := ← J.getHex j "path",
+         resourceRequest := ← J.getBool j "resourceRequest" }
+
+def decodeTokAns (j : Json) : Except String TokAns := do
+  match ← J.getStr j "k" with
+  | "ok" => pure (.ok (← J.getHex j "user"))
+  | "no" => pure .no
+  | "err" => pure .err
+  | k => throw s!"bad token answer {k}"
+
+def decodeSarAns (j : Json) : Except String SarAns := do
+  match ← J.getStr j "k" with
+  | "st" => pure (.status ⟨← J.getBool j "allowed", ← J.getBool j "denied", ← J.getHex j "reason"⟩)
+  | "err" => pure .err
+  | k => throw s!"bad sar answer {k}"
+
+structure TokRule where
+  inst : Inst
+  tok : Str
+  frm : Time
+  ans : TokAns
+
+structure SarRule where
+  inst : Inst
+  spec : Spec
+  frm : Time
+  ans : SarAns
+
+def tokOracle (rules : List TokRule) (c : Inst) (tok : Str) (t : Time) : TokAns :=
+  match rules.find? (fun r => decide (r.inst = c) && decide (r.tok = tok) && decide (r.frm ≤ t)) with
+  | some r => r.ans
+  | none => .no
+
+def sarOracle (rules : List SarRule) (c : Inst) (spec : Spec) (t : Time) : SarAns :=
+  match rules.find? (fun r => decide (r.inst = c) && decide (r.spec = spec) && decide (r.frm ≤ t)) with
+  | some r => r.ans
+  | none => .status ⟨false, false, []⟩
+
+def nth (l : List α) (i : Nat) (what : String) : Except String α :=
+  match l[i]? with
+  | some x => pure x
+  | none => throw s!"index {i} out of range in {what}"
+
+def decodeEv (j : Json) : Except String Ev := do
+  match ← J.getStr j "e" with
+  | "tick" => pure (.tick (← J.getNat j "dt"))
+  | "add" => pure (.addWithKey (← J.getHex j "key") (← J.getNat j "inst"))
+  | "del" => pure (.delete (← J.getHex j "key"))
+  | "delStop" => pure (.deleteWithStop (← J.getHex j "key"))
+  | "delAll" => pure .deleteAll
+  | "stop" => pure (.stop (← J.getNat j "inst"))
+  | "ep" => pure (.setEndpoint (← J.getNat j "inst") (← J.getHex j "name") (← J.getBool j "healthy") (← J.getBool j "disabled"))
+  | "rmEp" => pure (.removeEndpoint (← J.getNat j "inst") (← J.getHex j "name"))
+  | "dropTok" => pure (.dropTok (← J.getHex j "host") (← J.getNat j "inst"))
+  | "dropSar" => pure (.dropSar (← J.getHex j "host") (← J.getNat j "inst"))
+  | e => throw s!"unknown event {e}"
+
+/-- nesting is bounded by `fuel` (the harness nests at most three deep) -/
+def decodeMacro (attrs : List Attrs) : Nat → Json → Except String Model.AuthCache.Macro
+  | 0, _ => throw "macro nesting too deep"
+  | fuel + 1, j => do
+    let sub (k : String) : Except String (List Model.AuthCache.Macro) :=
+      match J.optObj j k with
+      | none => pure []
+      | some v => do (← v.getArr?).toList.mapM (decodeMacro attrs fuel)
+    match ← J.getStr j "op" with
+    | "ev" => pure (.ev (← decodeEv (← J.getObj j "ev")))
+    | "tok" => pure (.tok (← J.getHex j "host") (← J.getHex j "tok") 0 0 (← sub "mid1") (← sub "mid2"))
+    | "sar" => pure (.sar (← J.getHex j "host") (← nth attrs (← J.getNat j "attrs") "attrs") 0 (← sub "mid"))
+    | o => throw s!"unknown op {o}"
+
+def errName : ErrKind → String
+  | .notFound => "notFound"
+  | .noReady => "noReady"
+  | .moved => "moved"
+  | .upstream => "upstream"
+  | .both => "both"
+
+def errOfName : String → Except String ErrKind
+  | "notFound" => pure .notFound
+  | "noReady" => pure .noReady
+  | "moved" => pure .moved
+  | "upstream" => pure .upstream
+  | "both" => pure .both
+  | e => throw s!"unknown error kind {e}"
+
+def encTokRes : TokRes → Json
+  | .authenticated u => J.obj [("k", "auth"), ("user", J.hex u)]
+  | .unauthenticated => J.obj [("k", "unauth")]
+  | .error k => J.obj [("k", "err"), ("e", errName k)]
+
+def decTokRes (j : Json) : Except String TokRes := do
+  match ← J.getStr j "k" with
+  | "auth" => pure (.authenticated (← J.getHex j "user"))
+  | "unauth" => pure .unauthenticated
+  | "err" => pure (.error (← errOfName (← J.getStr j "e")))
+  | k => throw s!"bad token result {k}"
+
+def decisionName : Decision → String
+  | .deny => "deny"
+  | .allow => "allow"
+  | .noOpinion => "noOpinion"
+
+def encSarRes (r : SarRes) : Json :=
+  J.obj [("d", decisionName r.decision), ("reason", J.hex r.reason),
+         ("e", match r.err with | some k => errName k | none => "")]
+
+def decSarRes (j : Json) : Except String SarRes := do
+  let d ← match ← J.getStr j "d" with
+    | "deny" => pure Decision.deny
+    | "allow" => pure Decision.allow
+    | "noOpinion" => pure Decision.noOpinion
+    | d => throw s!"bad decision {d}"
+  let e ← match ← J.getStr j "e" with
+    | "" => pure none
+    | e => do pure (some (← errOfName e))
+  pure ⟨d, ← J.getHex j "reason", e⟩
+
+def srcName : Src → String
+  | .none => "none"
+  | .fresh => "fresh"
+  | .cached _ _ => "cached"
+
+def optInst : Option Inst → Json
+  | some c => J.nat c
+  | none => J.int (-1)
+
+def optHex : Option Str → Json
+  | some s => J.hex s
+  | none => Json.null
+
+def encOut : Out → Json
+  | .tok o => J.obj [("kind", "tok"), ("rid", J.nat o.rid), ("inst", optInst o.inst), ("res", encTokRes o.res),
+                     ("time", J.nat o.time), ("src", srcName o.src), ("ep", optHex o.ep), ("ready", J.hexList o.ready)]
+  | .sar o => J.obj [("kind", "sar"), ("rid", J.nat o.rid), ("inst", optInst o.inst), ("res", encSarRes o.res),
+                     ("time", J.nat o.time), ("src", srcName o.src), ("ep", optHex o.ep), ("ready", J.hexList o.ready)]
+
+def decOwn (j : Json) : Except String (Option Inst) := do
+  let i ← J.getInt j "own"
+  pure (if i < 0 then none else some i.toNat)
+
+def doRun (a : Json) : Except String Json := do
+  let cfgJ ← J.getObj a "cfg"
+  let cfg : Cfg := { successTTL := ← J.getNat cfgJ "successTTL", failureTTL := ← J.getNat cfgJ "failureTTL",
+                     allowTTL := ← J.getNat cfgJ "allowTTL", denyTTL := ← J.getNat cfgJ "denyTTL" }
+  let attrs ← (← J.getArr a "attrs").toList.mapM decodeAttrs
+  let tokRules ← (← J.getArr a "tokOracle").toList.mapM fun r => do
+    pure (⟨← J.getNat r "inst", ← J.getHex r "tok", ← J.getNat r "from", ← decodeTokAns (← J.getObj r "ans")⟩ : TokRule)
+  let sarRules ← (← J.getArr a "sarOracle").toList.mapM fun r => do
+    let atr ← nth attrs (← J.getNat r "attrs") "attrs"
+    pure (⟨← J.getNat r "inst", specOf atr, ← J.getNat r "from", ← decodeSarAns (← J.getObj r "ans")⟩ : SarRule)
+  let env : Env := { cfg := cfg, tokO := tokOracle tokRules, sarO := sarOracle sarRules }
+  let ops ← (← J.getArr a "ops").toList.mapM (decodeMacro attrs 6)
+  let r := runMacros env ⟨init, [], []⟩ ops
+  -- candidate times for the judge: every time at which an answer was given (model), plus the observation's own
+  let modelTimes := r.outs.map fun o => match o with | .tok x => x.time | .sar x => x.time
+  let impl := match J.optObj a "impl" with
+    | some (Json.arr xs) => xs.toList
+    | _ => []
+  let implObs ← impl.mapM fun j => do
+    match ← J.getStr j "kind" with
+    | "tok" => do
+      pure (Sum.inl ({ own := ← decOwn j, ownReady := ← J.getBool j "ownReady", tok := ← J.getHex j "tok",
+                       res := ← decTokRes (← J.getObj j "res"), time := ← J.getNat j "time",
+                       reviewed := ← J.getBool j "reviewed" } : TokObs))
+    | "sar" => do
+      pure (Sum.inr ({ own := ← decOwn j, ownReady := ← J.getBool j "ownReady",
+                       attrs := ← nth attrs (← J.getNat j "attrs") "attrs",
+                       res := ← decSarRes (← J.getObj j "res"), time := ← J.getNat j "time",
+                       reviewed := ← J.getBool j "reviewed" } : SarObs))
+    | k => throw s!"bad observation kind {k}"
+  let implTimes := implObs.map fun o => match o with | .inl x => x.time | .inr x => x.time
+  let cands := (modelTimes ++ implTimes).eraseDups
+  let implJudge := implObs.map fun o => match o with
+    | .inl x => tokJudge env cands x
+    | .inr x => sarJudge env cands x
+  pure <| J.obj [
+    ("outs", Json.arr (r.outs.map encOut).toArray),
+    ("steps", J.nat r.steps.length),
+    ("tokKeys", Json.arr (r.s.tokMap.map fun kv => Json.arr #[J.hex kv.1.host, J.nat kv.1.inst]).toArray),
+    ("sarKeys", Json.arr (r.s.sarMap.map fun kv => Json.arr #[J.hex kv.1.host, J.nat kv.1.inst]).toArray),
+    ("stopped", Json.arr (r.s.stopped.map J.nat).toArray),
+    ("pending", J.nat (r.s.tokPend.length + r.s.sarPend.length)),
+    ("implJudge", Json.arr (implJudge.map J.bool).toArray)]
+
+def handle (m : String) (a : Json) : Option (Except String Json) :=
+  match m with
+  | "run" => some (doRun a)
+  | _ => none
 
 end KG.Driver.C12
